@@ -2924,11 +2924,16 @@ func (db *DatabaseCollectionWithUser) updateAndReturnDoc(ctx context.Context, do
 
 			isNewDocCreation = currentValue == nil
 			heldUnusedSequences := unusedSequences
+			storedSequence := doc.Sequence
 			updatedDoc.Expiry, newRevID, storedDoc, oldBodyJSON, unusedSequences, changedAccessPrincipals, changedRoleAccessUsers, createNewRevIDSkipped, err = db.documentUpdateFunc(ctx, !isNewDocCreation, doc, allowImport, docSequence, unusedSequences, callback, expiry, docUpdateEvent)
 			if err != nil {
 				// documentUpdateFunc doesn't return unused sequences on failure. Keep tracking the sequences left unused by
 				// earlier iterations, so that they are released below instead of being abandoned.
 				unusedSequences = heldUnusedSequences
+				// A sequence newly allocated by this iteration before it failed (an error after assignSequence) is unused as well.
+				if doc.Sequence != storedSequence && doc.Sequence != docSequence {
+					unusedSequences = append(unusedSequences[:len(unusedSequences):len(unusedSequences)], doc.Sequence)
+				}
 				return
 			}
 			// If importing and the sync function has modified the expiry, allow sgbucket.MutateInOptions to modify the expiry
